@@ -710,16 +710,17 @@ theorem dataRow_spec (cur stf) (cell : Nat × Nat → List Char) (toks : Nat × 
       st'.notes = new ++ st.notes ∧ st'.same = false ∧
       (∀ r ∈ new, j ≤ r.main ∧ r.main < j + cols.length) ∧
       (∀ c ∈ cols, ∀ t ∈ toks c, ∀ d, subValue t = some d →
-        ∃ m, noteOf ⟨m, true, cur c, stf c⟩ 0 t d ∈ new) := by
+        ∃ m, noteOf ⟨m, true, cur c, stf c⟩ 0 t d ∈ new) ∧
+      (∀ r ∈ new, ∃ c ∈ cols, toks c ≠ []) := by
   induction cols generalizing st j acc anchors with
-  | nil => exact ⟨st, [], by simp [kcolsFrom, dataRow], by simp, hsame, by simp, by simp⟩
+  | nil => exact ⟨st, [], by simp [kcolsFrom, dataRow], by simp, hsame, by simp, by simp, by simp⟩
   | cons c rest ih =>
     have hrest : ∀ x ∈ rest, CellKind (cell x) (toks x) (adv x) := fun x hx => hc x (by simp [hx])
     cases hc c (by simp) with
     | null h ht ha =>
-      obtain ⟨st', new, h1, h2, h3, h4, h5⟩ := ih hrest st hsame (j + 1) (⟨j, true, cur c, stf c⟩ :: acc) anchors
+      obtain ⟨st', new, h1, h2, h3, h4, h5, h6⟩ := ih hrest st hsame (j + 1) (⟨j, true, cur c, stf c⟩ :: acc) anchors
         (fun e he => by have := hanch e he; omega)
-      refine ⟨st', new, ?_, h2, h3, ?_, ?_⟩
+      refine ⟨st', new, ?_, h2, h3, ?_, ?_, fun r hr => by obtain ⟨x, hx, hx'⟩ := h6 r hr; exact ⟨x, by simp [hx], hx'⟩⟩
       · simp only [kcolsFrom, List.map_cons, dataRow, h, Bool.or_true, Bool.true_or, if_true]
         rw [h1]
         simp [kcolsFrom, ha]
@@ -730,9 +731,9 @@ theorem dataRow_spec (cur stf) (cell : Nat × Nat → List Char) (toks : Nat × 
         · exact h5 x hx t htk d hd
     | tandem hd hb hs ok ht ha =>
       obtain ⟨st1, ht1, hn1, hs1⟩ := ok.ok st ⟨j, true, cur c, stf c⟩ 0 rfl
-      obtain ⟨st', new, h1, h2, h3, h4, h5⟩ := ih hrest st1 (by rw [hs1]; exact hsame) (j + 1)
+      obtain ⟨st', new, h1, h2, h3, h4, h5, h6⟩ := ih hrest st1 (by rw [hs1]; exact hsame) (j + 1)
         (⟨j, true, cur c, stf c⟩ :: acc) anchors (fun e he => by have := hanch e he; omega)
-      refine ⟨st', new, ?_, by rw [h2, hn1], h3, ?_, ?_⟩
+      refine ⟨st', new, ?_, by rw [h2, hn1], h3, ?_, ?_, fun r hr => by obtain ⟨x, hx, hx'⟩ := h6 r hr; exact ⟨x, by simp [hx], hx'⟩⟩
       · have e1 : cell c ≠ "*^".toList := ok.np1
         have e2 : cell c ≠ "*v".toList := ok.np2
         have e3 : cell c ≠ "*-".toList := ok.np3
@@ -752,7 +753,11 @@ theorem dataRow_spec (cur stf) (cell : Nat × Nat → List Char) (toks : Nat × 
       subst hsame
       obtain ⟨ns, hns, hmem⟩ := tokenNotes_of ⟨j, true, cur c, stf c⟩ 0 (toks c) (adv c) hv hadv
       have hlk : lookup (j + 1) anchors = none := lookup_none_of_lt anchors (j + 1) hanch
-      obtain ⟨st', new, h1, h2, h3, h4, h5⟩ := ih hrest ⟨scols, ns.reverse ++ snotes, sbars, sts, sks, scl, spt, sit, sw, false⟩ rfl (j + 1)
+      have htne : toks c ≠ [] := by
+        intro he
+        rw [he] at hadv
+        simp [tokAdv, tokenAdvance] at hadv
+      obtain ⟨st', new, h1, h2, h3, h4, h5, h6⟩ := ih hrest ⟨scols, ns.reverse ++ snotes, sbars, sts, sks, scl, spt, sit, sw, false⟩ rfl (j + 1)
         (⟨j, true, cur c + adv c, stf c⟩ :: acc) ((j + 1, cur c) :: anchors)
         (fun e he => by
           rcases List.mem_cons.mp he with rfl | he
@@ -760,7 +765,7 @@ theorem dataRow_spec (cur stf) (cell : Nat × Nat → List Char) (toks : Nat × 
           · have := hanch e he; omega)
       have hsub : subNotes ⟨j, true, cur c, stf c⟩ 0 (toks c) = some ns := (tokenNotes_adv _ _ _ _ _ hns).2
       have hmain := subNotes_onset _ _ _ _ hsub
-      refine ⟨st', new ++ ns.reverse, ?_, by rw [h2]; simp, h3, ?_, ?_⟩
+      refine ⟨st', new ++ ns.reverse, ?_, by rw [h2]; simp, h3, ?_, ?_, ?_⟩
       · simp only [kcolsFrom, List.map_cons, dataRow, hd, hb, hs, Bool.not_true, Bool.false_or, decide_false,
           Bool.false_eq_true, if_false, hp, groupKey, hlk, hns]
         rw [h1]
@@ -777,6 +782,11 @@ theorem dataRow_spec (cur stf) (cell : Nat × Nat → List Char) (toks : Nat × 
         · exact ⟨j, List.mem_append_right _ (List.mem_reverse.mpr (hmem t htk d hd'))⟩
         · obtain ⟨m, hm⟩ := h5 x hx t htk d hd'
           exact ⟨m, List.mem_append_left _ hm⟩
+      · intro r hr
+        rcases List.mem_append.mp hr with hr | hr
+        · obtain ⟨x, hx, hx'⟩ := h6 r hr
+          exact ⟨x, by simp [hx], hx'⟩
+        · exact ⟨c, by simp, htne⟩
 
 theorem takeWhile_all {α : Type} (p : α → Bool) (l : List α) (h : ∀ a ∈ l, p a = true) : l.takeWhile p = l := by
   induction l with
@@ -899,5 +909,860 @@ theorem tandemOK_meter (b u : Nat) : TandemOK ("*M".toList ++ natDigits b ++ '/'
       simp at hxM
     rw [hdb]
     simp [List.isPrefixOf, hne]
+
+/-! ## the row of the notes of one time point -/
+
+def tokc (n : XNote) : List Char := (noteTok n).getD []
+def subc (n : XNote) : Option SubTok := parseSub (tokc n)
+
+theorem tokc_spec (divs : Nat) (n : XNote) (h : noteOk divs n = true) : ∃ t, subc n = some t ∧ TokSpec divs n (tokc n) t := by
+  obtain ⟨cs, t, hs⟩ := noteTok_spec divs n h
+  have : tokc n = cs := by simp [tokc, hs.tok]
+  exact ⟨t, by simp [subc, this, hs.parse], this ▸ hs⟩
+
+theorem mapM_tokOf (divs : Nat) (notes : List XNote) (h : ∀ n ∈ notes, noteOk divs n = true) :
+    notes.mapM tokOf = some (notes.map fun n => (keyOf n, tokc n)) := by
+  induction notes with
+  | nil => rfl
+  | cons n rest ih =>
+    obtain ⟨t, _, hs⟩ := tokc_spec divs n (h n (by simp))
+    have h1 : tokOf n = some (keyOf n, tokc n) := by
+      have := hs.tok
+      simp [tokOf, this, keyOf]
+    simp [List.mapM_cons, h1, ih (fun x hx => h x (by simp [hx]))]
+
+theorem noteCell_eq (notes : List XNote) (c : Nat × Nat) :
+    noteCell (notes.map fun n => (keyOf n, tokc n)) c = joinToks ((notes.filter fun n => keyOf n = c).map tokc) := by
+  simp only [noteCell, List.filter_map, List.map_map]
+  rfl
+
+theorem parseToken_single (a : List Char) (t : SubTok) (hsp : ' ' ∉ a) (hne : a ≠ []) (hp : parseSub a = some t) :
+    parseToken a = some [t] := by
+  simp [parseToken, List.splitOn_eq_singleton hsp, hne, List.mapM_cons, hp]
+
+theorem parseToken_cons (a X : List Char) (t : SubTok) (L : List SubTok) (hsp : ' ' ∉ a) (hne : a ≠ [])
+    (hp : parseSub a = some t) (hX : parseToken X = some L) : parseToken (a ++ ' ' :: X) = some (t :: L) := by
+  simp only [parseToken] at hX ⊢
+  rw [List.splitOn_append_cons_self_of_not_mem hsp]
+  simp only [ne_eq, decide_not] at hX
+  simp [hne, List.mapM_cons, hp, hX]
+
+/-- what a spine advances by after the token of the notes `l` (the first governs; a token with a grace note does not advance) -/
+def advOf (divs : Nat) : List XNote → Rat
+  | [] => 0
+  | n :: rest => if (n :: rest).any (fun x => x.kind = 1) then 0 else valOf divs n
+
+theorem joinToks_cons (a : List Char) (b : List Char) (rest : List (List Char)) :
+    joinToks (a :: b :: rest) = a ++ ' ' :: joinToks (b :: rest) := rfl
+
+theorem head_facts : ∀ h ∈ 'q' :: digitChars, h ≠ '.' ∧ h ≠ '!' ∧ h ≠ '*' ∧ h ≠ '=' ∧ h ≠ 'p' ∧ h ≠ 'I' := by decide
+
+/-- the chord token of a non-empty list of exportable notes parses into their sub-tokens -/
+theorem parseToken_join (divs : Nat) (l : List XNote) (h : ∀ n ∈ l, noteOk divs n = true) (hne : l ≠ []) :
+    parseToken (joinToks (l.map tokc)) = some (l.filterMap subc) ∧
+      ∃ hd rest, joinToks (l.map tokc) = hd :: rest ∧ hd ∈ 'q' :: digitChars := by
+  induction l with
+  | nil => exact absurd rfl hne
+  | cons n rest ih =>
+    obtain ⟨t, hsub, hs⟩ := tokc_spec divs n (h n (by simp))
+    obtain ⟨hd, tl, hcs, hhd⟩ := hs.head
+    have hne' : tokc n ≠ [] := by rw [hcs]; simp
+    cases rest with
+    | nil =>
+      refine ⟨?_, hd, tl, by simp [joinToks, hcs], hhd⟩
+      simp only [List.map_cons, List.map_nil, joinToks, List.filterMap_cons, hsub, List.filterMap_nil]
+      exact parseToken_single _ t hs.nosp hne' hs.parse
+    | cons n' rest' =>
+      obtain ⟨ih1, _⟩ := ih (fun x hx => h x (by simp [hx])) (by simp)
+      refine ⟨?_, hd, tl ++ ' ' :: joinToks ((n' :: rest').map tokc), by simp [joinToks_cons, hcs], hhd⟩
+      simp only [List.map_cons, joinToks_cons, List.filterMap_cons, hsub]
+      simp only [List.map_cons, List.filterMap_cons] at ih1
+      exact parseToken_cons _ _ t _ hs.nosp hne' hs.parse ih1
+
+theorem tokAdv_subs (divs : Nat) (l : List XNote) (h : ∀ n ∈ l, noteOk divs n = true) (hne : l ≠ []) :
+    tokAdv (l.filterMap subc) = some (advOf divs l) ∧ ∀ t ∈ l.filterMap subc, ∃ d, subValue t = some d := by
+  have hall : ∀ t ∈ l.filterMap subc, ∃ n ∈ l, subc n = some t := by
+    intro t ht
+    obtain ⟨n, hn, hnt⟩ := List.mem_filterMap.mp ht
+    exact ⟨n, hn, hnt⟩
+  have hany : (l.filterMap subc).any (·.grace) = l.any (fun x => x.kind = 1) := by
+    clear hne hall
+    induction l with
+    | nil => rfl
+    | cons n rest ih =>
+      obtain ⟨t, hsub, hs⟩ := tokc_spec divs n (h n (by simp))
+      simp only [List.filterMap_cons, hsub, List.any_cons, hs.grace, ih (fun x hx => h x (by simp [hx]))]
+  constructor
+  · cases l with
+    | nil => exact absurd rfl hne
+    | cons n rest =>
+      obtain ⟨t, hsub, hs⟩ := tokc_spec divs n (h n (by simp))
+      have hta : tokenAdvance ((n :: rest).filterMap subc) = some (valOf divs n) := by
+        simp [List.filterMap_cons, hsub, tokenAdvance, hs.value]
+      simp only [tokAdv, hta, Option.map_some, hany, advOf]
+  · intro t ht
+    obtain ⟨n, hn, hnt⟩ := hall t ht
+    obtain ⟨t', hsub, hs⟩ := tokc_spec divs n (h n hn)
+    rw [hnt] at hsub
+    simp only [Option.some.injEq] at hsub
+    subst hsub
+    exact ⟨_, hs.value⟩
+
+/-- every cell of the row of the notes `notes` is a null token or the chord token of the column's notes -/
+theorem noteRow_cellKind (divs : Nat) (notes : List XNote) (h : ∀ n ∈ notes, noteOk divs n = true) (c : Nat × Nat) :
+    CellKind (noteCell (notes.map fun n => (keyOf n, tokc n)) c)
+      ((notes.filter fun n => keyOf n = c).filterMap subc) (advOf divs (notes.filter fun n => keyOf n = c)) := by
+  rw [noteCell_eq]
+  have hl : ∀ n ∈ notes.filter (fun n => keyOf n = c), noteOk divs n = true := fun n hn => h n (List.mem_filter.mp hn).1
+  cases hf : notes.filter (fun n => keyOf n = c) with
+  | nil => exact CellKind.null rfl rfl rfl
+  | cons n rest =>
+    rw [hf] at hl
+    obtain ⟨hp, hd, tl, hcell, hhd⟩ := parseToken_join divs (n :: rest) hl (by simp)
+    obtain ⟨hadv, hv⟩ := tokAdv_subs divs (n :: rest) hl (by simp)
+    obtain ⟨f1, f2, f3, _⟩ := head_facts hd hhd
+    refine CellKind.token ?_ ?_ ?_ hp hv hadv
+    · rw [hcell]; intro hc; simp at hc; exact f1 hc.1
+    · rw [hcell]; simp [startsWith, List.isPrefixOf]; intro hc; exact absurd hc.symm f2
+    · rw [hcell]; simp [startsWith, List.isPrefixOf]; intro hc; exact absurd hc.symm f3
+
+/-! ## one row at a time -/
+
+/-- the state machine stands in a document written by the exporter: one `**kern` spine per writer column,
+    every spine a part of its own -/
+def Shape (st : Kern.St) (cols : List (Nat × Nat)) (cur : Nat × Nat → Rat) (stf : Nat × Nat → Nat) : Prop :=
+  st.cols = kcolsFrom cur stf 0 cols ∧ st.same = false
+
+theorem step_interp (c0 : Nat × Nat) (rest : List (Nat × Nat)) (cur stf) (cell : Nat × Nat → List Char) (ns : Nat × Nat → Option Nat)
+    (hc : ∀ c ∈ c0 :: rest, TandemOK (cell c) (ns c))
+    (hstar : startsWith (cell c0) "*" = true) (hbang : startsWith (cell c0) "!" = false)
+    (st : Kern.St) (hs : Shape st (c0 :: rest) cur stf) :
+    ∃ st', step st ((c0 :: rest).map cell) = some st' ∧ Shape st' (c0 :: rest) cur (fun c => (ns c).getD (stf c)) ∧
+      st'.notes = st.notes := by
+  obtain ⟨hcols, hsame⟩ := hs
+  have hlen : ((c0 :: rest).map cell).length = st.cols.length := by rw [hcols, kcolsFrom_length]; simp
+  obtain ⟨st', h1, h2, h3⟩ := interpRow_spec cur stf cell ns (c0 :: rest) hc
+    { st with widths := updWidths st.widths (withPos st.cols) } 0 [] false
+  refine ⟨{ st' with cols := kcolsFrom cur (fun c => (ns c).getD (stf c)) 0 (c0 :: rest) }, ?_, ⟨rfl, by simp [h3, hsame]⟩, by simp [h2]⟩
+  have hlen' : ¬ ((cell c0 :: rest.map cell).length ≠ st.cols.length) := by simpa using hlen
+  simp only [step, List.map_cons, hbang, Bool.false_eq_true, if_false, hlen', hstar, if_true]
+  rw [hcols, withPos_kcols] at h1 ⊢
+  simp only [List.map_cons] at h1
+  rw [h1]
+  simp
+
+theorem step_bar (c0 : Nat × Nat) (rest : List (Nat × Nat)) (cur stf) (cell : List Char)
+    (hstar : startsWith cell "*" = false) (hbang : startsWith cell "!" = false) (heq : startsWith cell "=" = true)
+    (st : Kern.St) (hs : Shape st (c0 :: rest) cur stf) :
+    ∃ st', step st (fullRow (c0 :: rest) cell) = some st' ∧ Shape st' (c0 :: rest) cur stf ∧ st'.notes = st.notes := by
+  obtain ⟨hcols, hsame⟩ := hs
+  have hlen : (fullRow (c0 :: rest) cell).length = st.cols.length := by rw [hcols, kcolsFrom_length]; simp [fullRow]
+  obtain ⟨st', h1, h2, h3, h4⟩ := barRow_spec (withPos st.cols) (fullRow (c0 :: rest) cell)
+    (by rw [hcols, withPos_kcols]; simp [kcolsFrom_length, fullRow])
+    { st with widths := updWidths st.widths (withPos st.cols) }
+  refine ⟨st', ?_, ⟨by rw [h4]; exact hcols, by rw [h3]; exact hsame⟩, by rw [h2]⟩
+  have hlen' : ¬ ((cell :: rest.map fun _ => cell).length ≠ st.cols.length) := by simpa [fullRow] using hlen
+  simp only [fullRow, List.map_cons] at h1
+  simp only [step, fullRow, List.map_cons, hbang, Bool.false_eq_true, if_false, hlen', hstar, heq, if_true]
+  exact h1
+
+theorem step_data (c0 : Nat × Nat) (rest : List (Nat × Nat)) (cur stf) (cell : Nat × Nat → List Char)
+    (toks : Nat × Nat → List SubTok) (adv : Nat × Nat → Rat)
+    (hc : ∀ c ∈ c0 :: rest, CellKind (cell c) (toks c) (adv c))
+    (hstar : startsWith (cell c0) "*" = false) (hbang : startsWith (cell c0) "!" = false) (heq : startsWith (cell c0) "=" = false)
+    (st : Kern.St) (hs : Shape st (c0 :: rest) cur stf) :
+    ∃ st' new, step st ((c0 :: rest).map cell) = some st' ∧ Shape st' (c0 :: rest) (fun c => cur c + adv c) stf ∧
+      st'.notes = new ++ st.notes ∧ (∀ r ∈ new, r.main < (c0 :: rest).length) ∧
+      (∀ c ∈ c0 :: rest, ∀ t ∈ toks c, ∀ d, subValue t = some d → ∃ m, noteOf ⟨m, true, cur c, stf c⟩ 0 t d ∈ new) ∧
+      (∀ r ∈ new, ∃ c ∈ c0 :: rest, toks c ≠ []) := by
+  obtain ⟨hcols, hsame⟩ := hs
+  have hlen : ((c0 :: rest).map cell).length = st.cols.length := by rw [hcols, kcolsFrom_length]; simp
+  obtain ⟨st', new, h1, h2, h3, h4, h5, h6⟩ := dataRow_spec cur stf cell toks adv (c0 :: rest) hc
+    { st with widths := updWidths st.widths (withPos st.cols) } hsame 0 [] [] (by simp)
+  refine ⟨{ st' with cols := kcolsFrom (fun c => cur c + adv c) stf 0 (c0 :: rest) }, new, ?_, ⟨rfl, by simp [h3]⟩, by simp [h2],
+    fun r hr => by have := (h4 r hr).2; omega, h5, h6⟩
+  have hlen' : ¬ ((cell c0 :: rest.map cell).length ≠ st.cols.length) := by simpa using hlen
+  simp only [step, List.map_cons, hbang, Bool.false_eq_true, if_false, hlen', hstar, heq]
+  rw [hcols, withPos_kcols] at h1 ⊢
+  simp only [List.map_cons] at h1
+  rw [h1]
+  simp
+
+/-! ## rows that leave positions and notes alone -/
+
+def Pres (cols : List (Nat × Nat)) (row : Row) : Prop :=
+  ∀ cur stf (st : Kern.St), Shape st cols cur stf → ∃ st', step st row = some st' ∧ Shape st' cols cur stf ∧ st'.notes = st.notes
+
+theorem runRows_append (st : Kern.St) (a b : List Row) :
+    runRows st (a ++ b) = (runRows st a).bind fun st' => runRows st' b := by
+  induction a generalizing st with
+  | nil => simp [runRows]
+  | cons r rest ih =>
+    simp only [List.cons_append, runRows]
+    cases step st r with
+    | none => simp
+    | some st1 => simp [ih]
+
+theorem runRows_pres (cols : List (Nat × Nat)) (rows : List Row) (h : ∀ row ∈ rows, Pres cols row)
+    (cur stf) (st : Kern.St) (hs : Shape st cols cur stf) :
+    ∃ st', runRows st rows = some st' ∧ Shape st' cols cur stf ∧ st'.notes = st.notes := by
+  induction rows generalizing st with
+  | nil => exact ⟨st, rfl, hs, rfl⟩
+  | cons r rest ih =>
+    obtain ⟨st1, h1, hs1, hn1⟩ := h r (by simp) cur stf st hs
+    obtain ⟨st2, h2, hs2, hn2⟩ := ih (fun x hx => h x (by simp [hx])) st1 hs1
+    exact ⟨st2, by simp [runRows, h1, h2], hs2, by rw [hn2, hn1]⟩
+
+theorem structRows_pres (divs : Nat) (c0 : Nat × Nat) (rest : List (Nat × Nat)) (el : El) (hok : elOk divs el = true)
+    (hn : isNote el = false) : ∀ row ∈ structRows (c0 :: rest) el, Pres (c0 :: rest) row := by
+  intro row hrow cur stf st hs
+  cases el with
+  | note n => simp [isNote] at hn
+  | other => simp [structRows] at hrow
+  | measure number =>
+    simp only [structRows, List.mem_singleton] at hrow
+    subst hrow
+    exact step_bar c0 rest cur stf _ (by simp [startsWith, List.isPrefixOf]) (by simp [startsWith, List.isPrefixOf])
+      (by simp [startsWith, List.isPrefixOf]) st hs
+  | tsig b u =>
+    simp only [structRows, List.mem_singleton] at hrow
+    subst hrow
+    exact step_interp c0 rest cur stf (fun _ => "*M".toList ++ natDigits b ++ '/' :: natDigits u) (fun _ => none)
+      (fun _ _ => tandemOK_meter b u) (by simp [startsWith, List.isPrefixOf]) (by simp [startsWith, List.isPrefixOf]) st hs
+  | ksig f =>
+    simp only [structRows, List.mem_singleton] at hrow
+    subst hrow
+    exact step_interp c0 rest cur stf (fun _ => keyCell f) (fun _ => none)
+      (fun _ _ => tandemOK_key f) (by simp [startsWith, List.isPrefixOf, keyCell]) (by simp [startsWith, List.isPrefixOf, keyCell]) st hs
+  | clef staff sign line =>
+    simp only [structRows] at hrow
+    split at hrow
+    · simp only [List.mem_singleton] at hrow
+      subst hrow
+      simp only [elOk, Bool.or_eq_true, decide_eq_true_eq] at hok
+      have hsign : sign.toList.map Char.toUpper = ['G'] ∨ sign.toList.map Char.toUpper = ['F'] ∨ sign.toList.map Char.toUpper = ['C'] := by
+        rcases hok with (h | h) | h
+        · exact Or.inl h
+        · exact Or.inr (Or.inl h)
+        · exact Or.inr (Or.inr h)
+      have hclef := tandemOK_clef _ line hsign
+      have hall : ∀ c ∈ c0 :: rest, TandemOK ((fun (c : Nat × Nat) => if c.2 = staff then
+          "*clef".toList ++ (sign.toList.map Char.toUpper) ++ natDigits line else dotCell) c) ((fun _ => none) c) := by
+        intro c _
+        by_cases hc : c.2 = staff
+        · simp only [hc, if_true]; exact hclef
+        · simp only [hc, if_false]; exact tandemOK_dot
+      by_cases h0 : c0.2 = staff
+      · exact step_interp c0 rest cur stf _ (fun _ => none) hall
+          (by simp [h0, startsWith, List.isPrefixOf]) (by simp [h0, startsWith, List.isPrefixOf]) st hs
+      · have hkind : ∀ c ∈ c0 :: rest, CellKind ((fun (c : Nat × Nat) => if c.2 = staff then
+            "*clef".toList ++ (sign.toList.map Char.toUpper) ++ natDigits line else dotCell) c) ((fun _ => []) c) ((fun _ => 0) c) := by
+          intro c _
+          by_cases hc : c.2 = staff
+          · simp only [hc, if_true]
+            exact CellKind.tandem (by simp) (by simp [startsWith, List.isPrefixOf]) (by simp [startsWith, List.isPrefixOf]) hclef rfl rfl
+          · simp only [hc, if_false]
+            exact CellKind.null rfl rfl rfl
+        obtain ⟨st', new, h1, h2, h3, h4, h5, h6⟩ := step_data c0 rest cur stf _ _ _ hkind
+          (by simp [h0, startsWith, List.isPrefixOf, dotCell]) (by simp [h0, startsWith, List.isPrefixOf, dotCell])
+          (by simp [h0, startsWith, List.isPrefixOf, dotCell]) st hs
+        have hcur : (fun c => cur c + (fun _ => (0 : Rat)) c) = cur := by funext c; simp
+        rw [hcur] at h2
+        refine ⟨st', h1, h2, ?_⟩
+        -- no sub-token anywhere: nothing new
+        have hnil : new = [] := by
+          apply List.eq_nil_iff_forall_not_mem.mpr
+          intro r hr
+          obtain ⟨c, _, hc⟩ := h6 r hr
+          exact hc rfl
+        rw [h3, hnil]
+        rfl
+    · simp at hrow
+
+/-! ## the rows of the notes -/
+
+def rawFact (r : RawNote) : Fact := ⟨r.onset, r.dur, r.kind, r.step, r.alter, r.octave, r.staff⟩
+
+theorem emitted_fact (divs : Nat) (n : XNote) (t : SubTok) (hs : TokSpec divs n (tokc n) t) (hk : n.kind ≠ 2)
+    (hok : noteOk divs n = true) (m : Nat) (x : Rat) (s : Nat) :
+    rawFact (noteOf ⟨m, true, x, s⟩ 0 t (valOf divs n)) = ⟨x, valOf divs n, n.kind, n.step, n.alter.getD 0, n.octave, s⟩ ∧
+      (noteOf ⟨m, true, x, s⟩ 0 t (valOf divs n)).kind ≠ 2 := by
+  have hp := hs.pitch
+  simp only [hk, if_false] at hp
+  have hg := hs.grace
+  have ha := hs.alter hk
+  have hle : n.kind ≤ 2 := by
+    simp only [noteOk, Bool.and_eq_true, decide_eq_true_eq] at hok
+    exact hok.1.1
+  by_cases k1 : n.kind = 1
+  · simp [rawFact, noteOf, hp, hg, ha, k1]
+  · have k0 : n.kind = 0 := by omega
+    simp [rawFact, noteOf, hp, hg, ha, k0]
+
+theorem noteCell_first (divs : Nat) (notes : List XNote) (h : ∀ n ∈ notes, noteOk divs n = true) (c : Nat × Nat) :
+    startsWith (noteCell (notes.map fun n => (keyOf n, tokc n)) c) "*" = false ∧
+    startsWith (noteCell (notes.map fun n => (keyOf n, tokc n)) c) "!" = false ∧
+    startsWith (noteCell (notes.map fun n => (keyOf n, tokc n)) c) "=" = false ∧
+    startsWith (noteCell (notes.map fun n => (keyOf n, tokc n)) c) "*part" = false ∧
+    startsWith (noteCell (notes.map fun n => (keyOf n, tokc n)) c) "*I" = false := by
+  rw [noteCell_eq]
+  cases hf : notes.filter (fun n => keyOf n = c) with
+  | nil => simp [joinToks, dotCell, startsWith, List.isPrefixOf]
+  | cons n rest =>
+    have hl : ∀ x ∈ n :: rest, noteOk divs x = true := by
+      intro x hx
+      rw [← hf] at hx
+      exact h x (List.mem_filter.mp hx).1
+    obtain ⟨_, hd, tl, hcell, hhd⟩ := parseToken_join divs (n :: rest) hl (by simp)
+    obtain ⟨f1, f2, f3, f4, _, _⟩ := head_facts hd hhd
+    rw [hcell]
+    simp only [startsWith]
+    refine ⟨?_, ?_, ?_, ?_, ?_⟩ <;> simp [List.isPrefixOf] <;> intro hc <;> first
+      | exact absurd hc.symm f3 | exact absurd hc.symm f2 | exact absurd hc.symm f4
+
+def curOf (divs : Nat) (nexts : List ((Nat × Nat) × Nat)) (c : Nat × Nat) : Rat :=
+  (((lookup c nexts).getD 0 : Nat) : Rat) / (divs : Rat)
+
+/-- the row of a list of exportable notes: every spine with a token moves on, every note and grace note is read
+    where its spine stands, with its value, spelling and staff -/
+theorem noteRow_spec (divs : Nat) (c0 : Nat × Nat) (rest : List (Nat × Nat)) (notes : List XNote)
+    (hok : ∀ n ∈ notes, noteOk divs n = true) (hkeys : ∀ n ∈ notes, keyOf n ∈ c0 :: rest)
+    (cur stf) (st : Kern.St) (hs : Shape st (c0 :: rest) cur stf) :
+    ∃ st' new, step st ((c0 :: rest).map (noteCell (notes.map fun n => (keyOf n, tokc n)))) = some st' ∧
+      Shape st' (c0 :: rest) (fun c => cur c + advOf divs (notes.filter fun n => keyOf n = c)) stf ∧
+      st'.notes = new ++ st.notes ∧ (∀ r ∈ new, r.main < (c0 :: rest).length) ∧
+      ∀ n ∈ notes, n.kind ≠ 2 → ∃ r ∈ new, r.kind ≠ 2 ∧
+        rawFact r = ⟨cur (keyOf n), valOf divs n, n.kind, n.step, n.alter.getD 0, n.octave, stf (keyOf n)⟩ := by
+  obtain ⟨f1, f2, f3, _, _⟩ := noteCell_first divs notes hok c0
+  obtain ⟨st', new, h1, h2, h3, h4, h5, _⟩ := step_data c0 rest cur stf
+    (noteCell (notes.map fun n => (keyOf n, tokc n)))
+    (fun c => (notes.filter fun n => keyOf n = c).filterMap subc)
+    (fun c => advOf divs (notes.filter fun n => keyOf n = c))
+    (fun c _ => noteRow_cellKind divs notes hok c) f1 f2 f3 st hs
+  refine ⟨st', new, h1, h2, h3, h4, ?_⟩
+  intro n hn hk
+  obtain ⟨t, hsub, hspec⟩ := tokc_spec divs n (hok n hn)
+  have hmem : t ∈ (notes.filter fun x => keyOf x = keyOf n).filterMap subc :=
+    List.mem_filterMap.mpr ⟨n, List.mem_filter.mpr ⟨hn, by simp⟩, hsub⟩
+  obtain ⟨m, hm⟩ := h5 (keyOf n) (hkeys n hn) t hmem (valOf divs n) hspec.value
+  obtain ⟨e1, e2⟩ := emitted_fact divs n t hspec hk (hok n hn) m (cur (keyOf n)) (stf (keyOf n))
+  exact ⟨_, hm, e2, e1⟩
+
+/-! ## one time point -/
+
+theorem mem_notesOf (els : List El) (n : XNote) : n ∈ notesOf els ↔ El.note n ∈ els := by
+  simp only [notesOf, List.mem_filterMap]
+  constructor
+  · rintro ⟨e, he, hn⟩
+    cases e <;> simp at hn
+    subst hn
+    exact he
+  · intro h
+    exact ⟨El.note n, h, rfl⟩
+
+theorem advOf_grace (divs : Nat) (g : XNote) (hg : g.kind = 1) (c : Nat × Nat) :
+    advOf divs ([g].filter fun n => keyOf n = c) = 0 := by
+  by_cases h : keyOf g = c
+  · simp [h, advOf, hg]
+  · simp [h, advOf]
+
+theorem graceRows_spec (divs : Nat) (c0 : Nat × Nat) (rest : List (Nat × Nat)) (gs : List XNote)
+    (hg : ∀ g ∈ gs, g.kind = 1) (hok : ∀ n ∈ gs, noteOk divs n = true) (hkeys : ∀ n ∈ gs, keyOf n ∈ c0 :: rest)
+    (cur stf) (st : Kern.St) (hs : Shape st (c0 :: rest) cur stf) :
+    ∃ st' new, runRows st (gs.map fun g => (c0 :: rest).map (noteCell [(keyOf g, tokc g)])) = some st' ∧
+      Shape st' (c0 :: rest) cur stf ∧ st'.notes = new ++ st.notes ∧ (∀ r ∈ new, r.main < (c0 :: rest).length) ∧
+      ∀ n ∈ gs, ∃ r ∈ new, r.kind ≠ 2 ∧
+        rawFact r = ⟨cur (keyOf n), valOf divs n, n.kind, n.step, n.alter.getD 0, n.octave, stf (keyOf n)⟩ := by
+  induction gs generalizing st with
+  | nil => exact ⟨st, [], rfl, hs, by simp, by simp, by simp⟩
+  | cons g rest' ih =>
+    have hg1 := hg g (by simp)
+    obtain ⟨st1, new1, h1, h2, h3, h4, h5⟩ := noteRow_spec divs c0 rest [g]
+      (fun n hn => hok n (by simp at hn; simp [hn])) (fun n hn => hkeys n (by simp at hn; simp [hn])) cur stf st hs
+    have hcur : (fun c => cur c + advOf divs ([g].filter fun n => keyOf n = c)) = cur := by
+      funext c; rw [advOf_grace divs g hg1]; simp
+    rw [hcur] at h2
+    obtain ⟨st2, new2, k1, k2, k3, k4, k5⟩ := ih (fun x hx => hg x (by simp [hx])) (fun x hx => hok x (by simp [hx]))
+      (fun x hx => hkeys x (by simp [hx])) st1 h2
+    refine ⟨st2, new2 ++ new1, ?_, k2, by rw [k3, h3]; simp, ?_, ?_⟩
+    · simp only [List.map_cons, runRows]
+      simp only [List.map_cons, List.map_nil] at h1
+      rw [h1]
+      exact k1
+    · intro r hr
+      rcases List.mem_append.mp hr with hr | hr
+      · exact k4 r hr
+      · exact h4 r hr
+    · intro n hn
+      rcases List.mem_cons.mp hn with rfl | hn
+      · have hk2 : n.kind ≠ 2 := by omega
+        obtain ⟨r, hr, e⟩ := h5 n (by simp) hk2
+        exact ⟨r, List.mem_append_right _ hr, e⟩
+      · obtain ⟨r, hr, e⟩ := k5 n hn
+        exact ⟨r, List.mem_append_left _ hr, e⟩
+
+theorem lookup_map_val {α β : Type} [DecidableEq α] (g : α → β → β) (l : List (α × β)) (k : α) :
+    lookup k (l.map fun e => (e.1, g e.1 e.2)) = (lookup k l).map (g k) := by
+  induction l with
+  | nil => rfl
+  | cons e rest ih =>
+    obtain ⟨a, b⟩ := e
+    simp only [List.map_cons, lookup]
+    by_cases h : a = k
+    · subst h; simp
+    · simp [h, ih]
+
+/-- the positions after the time point, as `advanceCols` computes them, are where the spines stand after the row -/
+theorem advance_cur (divs t : Nat) (notes : List XNote) (nexts nexts' : List ((Nat × Nat) × Nat))
+    (h : advanceCols nexts t notes = some nexts') (c : Nat × Nat) :
+    curOf divs nexts' c = curOf divs nexts c + advOf divs (colNotes (plainOf notes) c) := by
+  simp only [advanceCols] at h
+  split at h
+  · rename_i hall0
+    have hall := (Bool.and_eq_true_iff.mp hall0).1
+    simp only [Option.some.injEq] at h
+    subst h
+    simp only [curOf]
+    rw [lookup_map_val (bump t notes)]
+    cases hf : colNotes (plainOf notes) c with
+    | nil =>
+      cases hl : lookup c nexts with
+      | none => simp [advOf]
+      | some v => simp [bump, firstPlain, hf, advOf]
+    | cons n0 rest =>
+      have hmem : n0 ∈ colNotes (plainOf notes) c := by rw [hf]; simp
+      simp only [colNotes, plainOf] at hmem
+      have hn0 : n0 ∈ notes := (List.mem_filter.mp (List.mem_filter.mp hmem).1).1
+      have hkey : keyOf n0 = c := by simpa using (List.mem_filter.mp hmem).2
+      have hlk : lookup c nexts = some t := by
+        have := List.all_eq_true.mp hall n0 hn0
+        simp only [decide_eq_true_eq] at this
+        rw [← hkey]
+        exact this
+      have hnog : (n0 :: rest).any (fun x => x.kind = 1) = false := by
+        rw [← hf]
+        apply List.any_eq_false.mpr
+        intro x hx
+        simp only [colNotes, plainOf] at hx
+        have := (List.mem_filter.mp (List.mem_filter.mp hx).1).2
+        simpa using this
+      have hk1 : n0.kind ≠ 1 := by
+        have := (List.mem_filter.mp (List.mem_filter.mp hmem).1).2
+        simpa using this
+      simp only [hlk, Option.map_some, bump, firstPlain, hf, List.head?_cons, Option.getD_some, advOf, hnog, Bool.false_eq_true, if_false, valOf, hk1]
+      push_cast
+      ring
+  · simp at h
+
+/-- a cell that does not declare a part or an instrument -/
+def NoTag (cell : List Char) : Prop := startsWith cell "*part" = false ∧ startsWith cell "*I" = false
+
+theorem structRows_noTag (cols : List (Nat × Nat)) (el : El) :
+    ∀ row ∈ structRows cols el, ∀ cell ∈ row, NoTag cell := by
+  intro row hrow cell hcell
+  cases el with
+  | note n => simp [structRows] at hrow
+  | other => simp [structRows] at hrow
+  | measure number =>
+    simp only [structRows, List.mem_singleton] at hrow
+    subst hrow
+    simp only [fullRow, List.mem_map] at hcell
+    obtain ⟨_, _, rfl⟩ := hcell
+    simp [NoTag, startsWith, List.isPrefixOf]
+  | tsig b u =>
+    simp only [structRows, List.mem_singleton] at hrow
+    subst hrow
+    simp only [fullRow, List.mem_map] at hcell
+    obtain ⟨_, _, rfl⟩ := hcell
+    simp [NoTag, startsWith, List.isPrefixOf]
+  | ksig f =>
+    simp only [structRows, List.mem_singleton] at hrow
+    subst hrow
+    simp only [fullRow, List.mem_map] at hcell
+    obtain ⟨_, _, rfl⟩ := hcell
+    simp [NoTag, startsWith, List.isPrefixOf, keyCell]
+  | clef staff sign line =>
+    simp only [structRows] at hrow
+    split at hrow
+    · simp only [List.mem_singleton] at hrow
+      subst hrow
+      simp only [List.mem_map] at hcell
+      obtain ⟨c, _, rfl⟩ := hcell
+      by_cases hc : c.2 = staff
+      · simp [hc, NoTag, startsWith, List.isPrefixOf]
+      · simp [hc, NoTag, startsWith, List.isPrefixOf, dotCell]
+    · simp at hrow
+
+theorem fact_eq (divs t : Nat) (n : XNote) (nexts : List ((Nat × Nat) × Nat)) (h : lookup (keyOf n) nexts = some t) :
+    (⟨curOf divs nexts (keyOf n), valOf divs n, n.kind, n.step, n.alter.getD 0, n.octave, Prod.snd (keyOf n)⟩ : Fact)
+      = factOf divs t n := by
+  simp only [keyOf] at h
+  simp [curOf, valOf, factOf, keyOf, h]
+
+theorem point_spec (divs : Nat) (c0 : Nat × Nat) (rest : List (Nat × Nat)) (els : List El) (t : Nat)
+    (nexts nexts' : List ((Nat × Nat) × Nat))
+    (hok : ∀ e ∈ els, elOk divs e = true) (hkeys : ∀ n ∈ notesOf els, keyOf n ∈ c0 :: rest)
+    (hadv : advanceCols nexts t (notesOf els) = some nexts')
+    (st : Kern.St) (hs : Shape st (c0 :: rest) (curOf divs nexts) Prod.snd) :
+    ∃ rows st' new, pointRows (c0 :: rest) els = some rows ∧ runRows st rows = some st' ∧
+      Shape st' (c0 :: rest) (curOf divs nexts') Prod.snd ∧ st'.notes = new ++ st.notes ∧
+      (∀ r ∈ new, r.main < (c0 :: rest).length) ∧
+      (∀ n ∈ notesOf els, n.kind ≠ 2 → ∃ r ∈ new, r.kind ≠ 2 ∧ rawFact r = factOf divs t n) ∧
+      (∀ row ∈ rows, ∀ cell ∈ row, NoTag cell) := by
+  have hnok : ∀ n ∈ notesOf els, noteOk divs n = true := by
+    intro n hn
+    have := hok _ ((mem_notesOf els n).mp hn)
+    simpa [elOk] using this
+  have hgsub : ∀ n ∈ gracesOf (notesOf els), n ∈ notesOf els ∧ n.kind = 1 := by
+    intro n hn
+    simp only [gracesOf, List.mem_filter, decide_eq_true_eq] at hn
+    exact hn
+  have hpsub : ∀ n ∈ plainOf (notesOf els), n ∈ notesOf els ∧ n.kind ≠ 1 := by
+    intro n hn
+    simp only [plainOf, List.mem_filter, decide_eq_true_eq] at hn
+    exact hn
+  have hlk : ∀ n ∈ notesOf els, lookup (keyOf n) nexts = some t := by
+    intro n hn
+    simp only [advanceCols] at hadv
+    split at hadv
+    · rename_i hall0
+      have hall := (Bool.and_eq_true_iff.mp hall0).1
+      have := List.all_eq_true.mp hall n hn
+      simpa using this
+    · simp at hadv
+  have hg := mapM_tokOf divs (gracesOf (notesOf els)) (fun n hn => hnok n (hgsub n hn).1)
+  have hp := mapM_tokOf divs (plainOf (notesOf els)) (fun n hn => hnok n (hpsub n hn).1)
+  -- the structural rows
+  obtain ⟨st1, r1, s1, n1⟩ := runRows_pres (c0 :: rest)
+    ((((els.filter fun e => !isNote e).filter fun e => !isMeasure e) ++ (els.filter fun e => !isNote e).filter isMeasure).map
+      (structRows (c0 :: rest))).flatten
+    (by
+      intro row hrow
+      obtain ⟨l, hl, hrl⟩ := List.mem_flatten.mp hrow
+      obtain ⟨el, hel, rfl⟩ := List.mem_map.mp hl
+      have hel' : el ∈ els ∧ isNote el = false := by
+        rcases List.mem_append.mp hel with h | h
+        · have := (List.mem_filter.mp (List.mem_filter.mp h).1)
+          exact ⟨this.1, by simpa using this.2⟩
+        · have := (List.mem_filter.mp (List.mem_filter.mp h).1)
+          exact ⟨this.1, by simpa using this.2⟩
+      exact structRows_pres divs c0 rest el (hok el hel'.1) hel'.2 row hrl)
+    (curOf divs nexts) Prod.snd st hs
+  -- the grace notes
+  obtain ⟨st2, new2, r2, s2, n2, m2, f2⟩ := graceRows_spec divs c0 rest (gracesOf (notesOf els))
+    (fun g hg => (hgsub g hg).2) (fun n hn => hnok n (hgsub n hn).1) (fun n hn => hkeys n (hgsub n hn).1)
+    (curOf divs nexts) Prod.snd st1 s1
+  have r2' : runRows st1 (((gracesOf (notesOf els)).map fun n => (keyOf n, tokc n)).map fun g => (c0 :: rest).map (noteCell [g])) = some st2 := by
+    rw [List.map_map]; exact r2
+  have hcurfin : ∀ c, curOf divs nexts' c = curOf divs nexts c + advOf divs ((plainOf (notesOf els)).filter fun n => keyOf n = c) :=
+    fun c => advance_cur divs t (notesOf els) nexts nexts' hadv c
+  -- the notes and rests
+  by_cases hpl : plainOf (notesOf els) = []
+  · refine ⟨((((els.filter fun e => !isNote e).filter fun e => !isMeasure e) ++ (els.filter fun e => !isNote e).filter isMeasure).map
+      (structRows (c0 :: rest))).flatten ++ (((gracesOf (notesOf els)).map fun n => (keyOf n, tokc n)).map fun g => (c0 :: rest).map (noteCell [g])), st2, new2, ?_, ?_, ?_, by rw [n2, n1], m2, ?_, ?_⟩
+    · simp only [pointRows, hg, hp]
+      simp only [hpl, List.map_nil, if_true, List.append_nil]
+    · rw [runRows_append, r1]
+      exact r2'
+    · have : curOf divs nexts' = curOf divs nexts := by
+        funext c
+        rw [hcurfin c, hpl]
+        simp [advOf]
+      rw [this]; exact s2
+    · intro n hn hk2
+      have hk1 : n.kind = 1 := by
+        by_contra hne
+        have : n ∈ plainOf (notesOf els) := by simp [plainOf, hn, hne]
+        rw [hpl] at this
+        cases this
+      obtain ⟨r, hr, e1, e2⟩ := f2 n (by simp [gracesOf, hn, hk1])
+      exact ⟨r, hr, e1, by rw [e2]; exact fact_eq divs t n nexts (hlk n hn)⟩
+    · intro row hrow cell hcell
+      rcases List.mem_append.mp hrow with h | h
+      · obtain ⟨l, hl, hrl⟩ := List.mem_flatten.mp h
+        obtain ⟨el, _, rfl⟩ := List.mem_map.mp hl
+        exact structRows_noTag _ el row hrl cell hcell
+      · obtain ⟨gtok, hgt, rfl⟩ := List.mem_map.mp h
+        obtain ⟨g, hgm, rfl⟩ := List.mem_map.mp hgt
+        obtain ⟨c, _, rfl⟩ := List.mem_map.mp hcell
+        have := noteCell_first divs [g] (fun n hn => by simp at hn; rw [hn]; exact hnok g (hgsub g hgm).1) c
+        exact ⟨this.2.2.2.1, this.2.2.2.2⟩
+  · obtain ⟨st3, new3, r3, s3, n3, m3, f3⟩ := noteRow_spec divs c0 rest (plainOf (notesOf els))
+      (fun n hn => hnok n (hpsub n hn).1) (fun n hn => hkeys n (hpsub n hn).1) (curOf divs nexts) Prod.snd st2 s2
+    have hmapne : (plainOf (notesOf els)).map (fun n => (keyOf n, tokc n)) ≠ [] := by simpa using hpl
+    refine ⟨((((els.filter fun e => !isNote e).filter fun e => !isMeasure e) ++ (els.filter fun e => !isNote e).filter isMeasure).map
+      (structRows (c0 :: rest))).flatten ++ (((gracesOf (notesOf els)).map fun n => (keyOf n, tokc n)).map fun g => (c0 :: rest).map (noteCell [g])) ++ [(c0 :: rest).map (noteCell ((plainOf (notesOf els)).map fun n => (keyOf n, tokc n)))], st3, new3 ++ new2, ?_, ?_, ?_, by rw [n3, n2, n1]; simp, ?_, ?_, ?_⟩
+    · simp only [pointRows, hg, hp, hmapne, if_false]
+    · rw [runRows_append, runRows_append, r1]
+      simp only [Option.bind_some]
+      rw [r2']
+      simp only [Option.bind_some, runRows, r3]
+    · have : curOf divs nexts' = fun c => curOf divs nexts c + advOf divs ((plainOf (notesOf els)).filter fun n => keyOf n = c) :=
+        funext hcurfin
+      rw [this]; exact s3
+    · intro r hr
+      rcases List.mem_append.mp hr with h | h
+      · exact m3 r h
+      · exact m2 r h
+    · intro n hn hk2
+      by_cases hk1 : n.kind = 1
+      · obtain ⟨r, hr, e1, e2⟩ := f2 n (by simp [gracesOf, hn, hk1])
+        exact ⟨r, List.mem_append_right _ hr, e1, by rw [e2]; exact fact_eq divs t n nexts (hlk n hn)⟩
+      · obtain ⟨r, hr, e1, e2⟩ := f3 n (by simp [plainOf, hn, hk1]) hk2
+        exact ⟨r, List.mem_append_left _ hr, e1, by rw [e2]; exact fact_eq divs t n nexts (hlk n hn)⟩
+    · intro row hrow cell hcell
+      rcases List.mem_append.mp hrow with h | h
+      · rcases List.mem_append.mp h with h | h
+        · obtain ⟨l, hl, hrl⟩ := List.mem_flatten.mp h
+          obtain ⟨el, _, rfl⟩ := List.mem_map.mp hl
+          exact structRows_noTag _ el row hrl cell hcell
+        · obtain ⟨gtok, hgt, rfl⟩ := List.mem_map.mp h
+          obtain ⟨g, hgm, rfl⟩ := List.mem_map.mp hgt
+          obtain ⟨c, _, rfl⟩ := List.mem_map.mp hcell
+          have := noteCell_first divs [g] (fun n hn => by simp at hn; rw [hn]; exact hnok g (hgsub g hgm).1) c
+          exact ⟨this.2.2.2.1, this.2.2.2.2⟩
+      · simp only [List.mem_singleton] at h
+        subst h
+        simp only [List.mem_map] at hcell
+        obtain ⟨c, _, rfl⟩ := hcell
+        have := noteCell_first divs (plainOf (notesOf els)) (fun n hn => hnok n (hpsub n hn).1) c
+        exact ⟨this.2.2.2.1, this.2.2.2.2⟩
+
+/-! ## the whole document -/
+
+theorem allRows_spec (divs : Nat) (c0 : Nat × Nat) (rest : List (Nat × Nat)) (points : List (Nat × List El))
+    (nexts : List ((Nat × Nat) × Nat))
+    (hok : ∀ pt ∈ points, ∀ e ∈ pt.2, elOk divs e = true)
+    (hkeys : ∀ pt ∈ points, ∀ n ∈ notesOf pt.2, keyOf n ∈ c0 :: rest)
+    (hsp : spinesComplete nexts points = true)
+    (st : Kern.St) (hs : Shape st (c0 :: rest) (curOf divs nexts) Prod.snd) :
+    ∃ body st' new nexts', allRows (c0 :: rest) points = some body ∧ runRows st body = some st' ∧
+      Shape st' (c0 :: rest) (curOf divs nexts') Prod.snd ∧ st'.notes = new ++ st.notes ∧
+      (∀ r ∈ new, r.main < (c0 :: rest).length) ∧
+      (∀ pt ∈ points, ∀ n ∈ notesOf pt.2, n.kind ≠ 2 → ∃ r ∈ new, r.kind ≠ 2 ∧ rawFact r = factOf divs pt.1 n) ∧
+      (∀ row ∈ body, ∀ cell ∈ row, NoTag cell) := by
+  induction points generalizing nexts st with
+  | nil => exact ⟨[], st, [], nexts, rfl, rfl, hs, by simp, by simp, by simp, by simp⟩
+  | cons pt pts ih =>
+    simp only [spinesComplete] at hsp
+    cases hadv : advanceCols nexts pt.1 (notesOf pt.2) with
+    | none => simp [hadv] at hsp
+    | some nexts1 =>
+      simp only [hadv] at hsp
+      obtain ⟨rows1, st1, new1, p1, r1, s1, n1, m1, f1, t1⟩ := point_spec divs c0 rest pt.2 pt.1 nexts nexts1
+        (hok pt (by simp)) (hkeys pt (by simp)) hadv st hs
+      obtain ⟨body2, st2, new2, nexts2, p2, r2, s2, n2, m2, f2, t2⟩ := ih nexts1
+        (fun x hx => hok x (by simp [hx])) (fun x hx => hkeys x (by simp [hx])) hsp st1 s1
+      refine ⟨rows1 ++ body2, st2, new2 ++ new1, nexts2, by simp [allRows, p1, p2], ?_, s2, by rw [n2, n1]; simp, ?_, ?_, ?_⟩
+      · rw [runRows_append, r1]; exact r2
+      · intro r hr
+        rcases List.mem_append.mp hr with h | h
+        · exact m2 r h
+        · exact m1 r h
+      · intro x hx n hn hk
+        rcases List.mem_cons.mp hx with rfl | hx
+        · obtain ⟨r, hr, e⟩ := f1 n hn hk
+          exact ⟨r, List.mem_append_right _ hr, e⟩
+        · obtain ⟨r, hr, e⟩ := f2 x hx n hn hk
+          exact ⟨r, List.mem_append_left _ hr, e⟩
+      · intro row hrow cell hcell
+        rcases List.mem_append.mp hrow with h | h
+        · exact t1 row h cell hcell
+        · exact t2 row h cell hcell
+
+theorem initCols_kern (cols : List (Nat × Nat)) (j : Nat) :
+    initCols (fullRow cols "**kern".toList) j = kcolsFrom (fun _ => 0) (fun _ => 1) j cols := by
+  induction cols generalizing j with
+  | nil => rfl
+  | cons c rest ih =>
+    have h : (startsWith "**kern".toList "**kern" || startsWith "**kern".toList "**notes") = true := by decide
+    show initCols ("**kern".toList :: fullRow rest "**kern".toList) j = _
+    simp only [initCols, kcolsFrom, h, ih]
+
+theorem mains_kcols (cur stf) (cols : List (Nat × Nat)) (j m : Nat) (h1 : j ≤ m) (h2 : m < j + cols.length) :
+    m ∈ ((kcolsFrom cur stf j cols).filter (·.kern)).map (·.main) := by
+  induction cols generalizing j with
+  | nil => simp at h2; omega
+  | cons c rest ih =>
+    simp only [kcolsFrom, List.filter_cons, if_true, List.map_cons, List.mem_cons]
+    by_cases h : m = j
+    · exact Or.inl h
+    · right
+      exact ih (j + 1) (by omega) (by simp only [List.length_cons] at h2; omega)
+
+theorem scanTags_nil (rows : List Row) (pfx : String) (h : ∀ row ∈ rows, ∀ cell ∈ row, startsWith cell pfx = false) :
+    scanTags rows pfx = [] := by
+  simp only [scanTags, List.map_eq_nil_iff, List.filter_eq_nil_iff]
+  intro cell hcell
+  obtain ⟨row, hrow, hc⟩ := List.mem_flatten.mp hcell
+  simp [h row hrow cell hc]
+
+theorem samePartOf_false (rows : List Row) (h : ∀ row ∈ rows, ∀ cell ∈ row, NoTag cell) : samePartOf rows = false := by
+  have h1 := scanTags_nil rows "*part" (fun row hr cell hc => (h row hr cell hc).1)
+  have h2 := scanTags_nil rows "*I" (fun row hr cell hc => (h row hr cell hc).2)
+  simp [samePartOf, h1, h2]
+
+theorem endRow_spec (cols : List (Nat × Nat)) (cur stf) (st : Kern.St) (j : Nat) (acc : List Col) (b : Bool) :
+    interpRow st ((kcolsFrom cur stf j cols).map fun c => (c, 0)) (fullRow cols "*-".toList) acc b = some (st, acc.reverse) := by
+  induction cols generalizing j acc b with
+  | nil => simp [kcolsFrom, fullRow, interpRow]
+  | cons c rest ih =>
+    simp only [kcolsFrom, fullRow, List.map_cons, interpRow]
+    have h1 : ¬ ("*-".toList = "*^".toList) := by decide
+    have h2 : ¬ ("*-".toList = "*v".toList) := by decide
+    simp only [h1, h2, if_false, if_true]
+    exact ih (j + 1) acc false
+
+theorem step_unfold_interp (st : Kern.St) (first : List Char) (tl : List (List Char))
+    (h1 : startsWith first "!" = false) (h2 : (first :: tl).length = st.cols.length) (h3 : startsWith first "*" = true) :
+    step st (first :: tl) =
+      (interpRow { st with widths := updWidths st.widths (withPos st.cols) } (withPos st.cols) (first :: tl) [] false).map
+        fun (x : Kern.St × List Col) => { x.1 with cols := x.2 } := by
+  have h2' : ¬ ((first :: tl).length ≠ st.cols.length) := by simpa using h2
+  simp only [step, h1, h2', h3, Bool.false_eq_true, if_false, if_true]
+
+theorem step_end (c0 : Nat × Nat) (rest : List (Nat × Nat)) (cur stf) (st : Kern.St) (hs : Shape st (c0 :: rest) cur stf) :
+    ∃ st', step st (fullRow (c0 :: rest) "*-".toList) = some st' ∧ st'.notes = st.notes ∧ st'.same = false := by
+  obtain ⟨hcols, hsame⟩ := hs
+  refine ⟨{ ({ st with widths := updWidths st.widths (withPos st.cols) } : Kern.St) with cols := [] }, ?_, rfl, hsame⟩
+  show step st ("*-".toList :: fullRow rest "*-".toList) = _
+  rw [step_unfold_interp st _ _ (by decide) (by rw [hcols, kcolsFrom_length]; simp [fullRow]) (by decide)]
+  have := endRow_spec (c0 :: rest) cur stf { st with widths := updWidths st.widths (withPos st.cols) } 0 [] false
+  rw [show ("*-".toList :: fullRow rest "*-".toList) = fullRow (c0 :: rest) "*-".toList from rfl]
+  rw [← withPos_kcols, ← hcols] at this
+  rw [this]
+  rfl
+
+theorem mem_insertPair (a x : Nat × Nat) (l : List (Nat × Nat)) : x ∈ insertPair a l ↔ x = a ∨ x ∈ l := by
+  induction l with
+  | nil => simp [insertPair]
+  | cons b rest ih =>
+    simp only [insertPair]
+    split
+    · rename_i hab
+      subst hab
+      simp only [List.mem_cons]
+      tauto
+    · split
+      · simp only [List.mem_cons]
+      · simp only [List.mem_cons, ih]
+        tauto
+
+theorem mem_columns_fold (notes : List XNote) (acc : List (Nat × Nat)) (x : Nat × Nat) :
+    x ∈ notes.foldl (fun acc n => insertPair (n.voice, n.staff) acc) acc ↔ x ∈ acc ∨ ∃ n ∈ notes, keyOf n = x := by
+  induction notes generalizing acc with
+  | nil => simp
+  | cons n rest ih =>
+    simp only [List.foldl_cons, ih, mem_insertPair, List.mem_cons, exists_eq_or_imp, keyOf]
+    constructor
+    · rintro ((rfl | h) | h)
+      · exact Or.inr (Or.inl rfl)
+      · exact Or.inl h
+      · exact Or.inr (Or.inr h)
+    · rintro (h | h | h)
+      · exact Or.inl (Or.inr h)
+      · exact Or.inl (Or.inl h.symm)
+      · exact Or.inr h
+
+theorem columns_mem (p : XPart) (pt : Nat × List El) (hpt : pt ∈ p.points) (n : XNote) (hn : n ∈ notesOf pt.2) :
+    keyOf n ∈ columns p := by
+  simp only [columns, mem_columns_fold]
+  right
+  refine ⟨n, ?_, rfl⟩
+  simp only [allNotes, List.mem_flatten, List.mem_map]
+  exact ⟨notesOf pt.2, ⟨pt, hpt, rfl⟩, hn⟩
+
+theorem curOf_init (divs : Nat) (cols : List (Nat × Nat)) (c : Nat × Nat) :
+    curOf divs (cols.map fun c => (c, 0)) c = 0 := by
+  have : (lookup c (cols.map fun c => (c, (0 : Nat)))).getD 0 = 0 := by
+    induction cols with
+    | nil => rfl
+    | cons d rest ih =>
+      simp only [List.map_cons, lookup]
+      split
+      · rfl
+      · exact ih
+  simp [curOf, this]
+
+theorem mem_facts (p : XPart) (f : Fact) (hf : f ∈ facts p) :
+    ∃ pt ∈ p.points, ∃ n ∈ notesOf pt.2, n.kind ≠ 2 ∧ f = factOf p.divs pt.1 n := by
+  simp only [facts, List.mem_flatten, List.mem_map] at hf
+  obtain ⟨l, ⟨pt, hpt, rfl⟩, hfl⟩ := hf
+  simp only [List.mem_map, List.mem_filter] at hfl
+  obtain ⟨n, ⟨hn, hk⟩, rfl⟩ := hfl
+  exact ⟨pt, hpt, n, hn, by simpa using hk, rfl⟩
+
+/-- **export_import (kern).**  The document written for an exportable part denotes, among the notes of its
+    parts, every note and grace note of the part with its onset and duration in quarters, spelling and staff. -/
+theorem export_import_kern_aux (p : XPart) (h : Exportable p = true) :
+    ∃ rows parts, writeKern p = some rows ∧ Kern.denote rows = some parts ∧
+      ∀ f ∈ facts p, ∃ part ∈ parts, ∃ x ∈ part.notes, factOfKernNote x = f := by
+  simp only [Exportable, Bool.and_eq_true, decide_eq_true_eq, Bool.not_eq_true', List.all_eq_true] at h
+  obtain ⟨⟨⟨hdivs, hcols⟩, hok⟩, hsp⟩ := h
+  cases hc : columns p with
+  | nil => simp [hc] at hcols
+  | cons c0 rest =>
+    rw [hc] at hsp
+    have hkeys : ∀ pt ∈ p.points, ∀ n ∈ notesOf pt.2, keyOf n ∈ c0 :: rest := by
+      intro pt hpt n hn
+      rw [← hc]
+      exact columns_mem p pt hpt n hn
+    -- the state after the two header rows
+    have hcur0 : (fun _ => (0 : Rat)) = curOf p.divs ((c0 :: rest).map fun c => (c, 0)) := by
+      funext c; exact (curOf_init p.divs (c0 :: rest) c).symm
+    let hdr : Row := fullRow (c0 :: rest) "**kern".toList
+    let staffRow : Row := (c0 :: rest).map fun c => "*staff".toList ++ natDigits c.2
+    -- rows and their cells
+    obtain ⟨st1, r1, s1, n1⟩ := step_interp c0 rest (fun _ => 0) (fun _ => 1)
+      (fun c => "*staff".toList ++ natDigits c.2) (fun c => some c.2) (fun c _ => tandemOK_staff c.2)
+      (by simp [startsWith, List.isPrefixOf]) (by simp [startsWith, List.isPrefixOf])
+      { cols := initCols hdr 0, same := false } ⟨initCols_kern (c0 :: rest) 0, rfl⟩
+    have s1' : Shape st1 (c0 :: rest) (curOf p.divs ((c0 :: rest).map fun c => (c, 0))) Prod.snd := by
+      rw [← hcur0]; exact s1
+    obtain ⟨body, st2, new, nexts', pb, r2, s2, n2, m2, f2, t2⟩ := allRows_spec p.divs c0 rest p.points _
+      (fun pt hpt e he => hok pt hpt e he) hkeys hsp st1 s1'
+    obtain ⟨st3, r3, n3, same3⟩ := step_end c0 rest _ _ st2 s2
+    have hrows : writeKern p = some ([hdr, staffRow] ++ body ++ [fullRow (c0 :: rest) "*-".toList]) := by
+      simp only [writeKern, hc, pb]
+      simp [hdr, staffRow]
+    have hnotag : ∀ row ∈ [hdr, staffRow] ++ body ++ [fullRow (c0 :: rest) "*-".toList], ∀ cell ∈ row, NoTag cell := by
+      intro row hrow cell hcell
+      simp only [List.mem_append, List.mem_cons, List.mem_singleton, List.not_mem_nil, or_false] at hrow
+      rcases hrow with ((rfl | rfl) | h) | rfl
+      · simp only [hdr, fullRow, List.mem_map] at hcell
+        obtain ⟨_, _, rfl⟩ := hcell
+        simp [NoTag, startsWith, List.isPrefixOf]
+      · simp only [staffRow, List.mem_map] at hcell
+        obtain ⟨_, _, rfl⟩ := hcell
+        simp [NoTag, startsWith, List.isPrefixOf]
+      · exact t2 row h cell hcell
+      · simp only [fullRow, List.mem_map] at hcell
+        obtain ⟨_, _, rfl⟩ := hcell
+        simp [NoTag, startsWith, List.isPrefixOf]
+    have hsameP : samePartOf (hdr :: staffRow :: (body ++ [fullRow (c0 :: rest) "*-".toList])) = false :=
+      samePartOf_false _ hnotag
+    have hrun : run ([hdr, staffRow] ++ body ++ [fullRow (c0 :: rest) "*-".toList]) = some st3 := by
+      have hskip : isSkippable hdr = false := by
+        simp [hdr, fullRow, isSkippable, startsWith, List.isPrefixOf]
+      simp only [run, List.cons_append, List.nil_append, List.dropWhile_cons, hskip, Bool.false_eq_true, if_false, hsameP]
+      simp only [runRows, staffRow] at r1 ⊢
+      rw [r1]
+      simp only [runRows_append, r2, Option.bind_some, runRows, r3]
+    refine ⟨_, assemble st3 (kernMains ([hdr, staffRow] ++ body ++ [fullRow (c0 :: rest) "*-".toList])), hrows, ?_, ?_⟩
+    · simp only [denote, hrun, Option.map_some]
+    · intro f hf
+      obtain ⟨pt, hpt, n, hn, hk, rfl⟩ := mem_facts p f hf
+      obtain ⟨r, hr, hrk, hrf⟩ := f2 pt hpt n hn hk
+      have hr3 : r ∈ st3.notes := by rw [n3, n2]; exact List.mem_append_left _ hr
+      have hmain : r.main ∈ kernMains ([hdr, staffRow] ++ body ++ [fullRow (c0 :: rest) "*-".toList]) := by
+        have hskip : isSkippable hdr = false := by
+          simp [hdr, fullRow, isSkippable, startsWith, List.isPrefixOf]
+        simp only [kernMains, List.cons_append, List.nil_append, List.dropWhile_cons, hskip, Bool.false_eq_true, if_false]
+        rw [initCols_kern]
+        exact mains_kcols _ _ _ 0 r.main (Nat.zero_le _) (by simpa using m2 r hr)
+      obtain ⟨part, hpart, x, hx, e1, e2, e3, e4, e5, e6, e7⟩ := assemble_mem st3 _ same3 r hr3 hmain hrk
+      refine ⟨part, hpart, x, hx, ?_⟩
+      rw [← hrf]
+      simp [factOfKernNote, rawFact, e1, e2, e3, e4, e5, e6, e7]
 
 end C19W
